@@ -94,7 +94,25 @@ Templates == <<
                               SReturn(ABin("+", Call("c", <<ABin("-", AVar("n"), AInt(1))>>), AList(<<AVar("n")>>)))>>),
     SAssign(TVar("l"), Call("c", <<VX>>))>>,
   <<SEmit(Call("sorted", <<ABin("+", L, AList(<<AInt(0), VX>>))>>)), SEmit(Call("sorted", <<AList(<<VX, Sv>>)>>))>>,   \* second sort fails
-  <<SAssign(ATuple(<<TVar("x"), TVar("y")>>), ATuple(<<Call("len", <<L>>), VX>>)), SAssign(ATuple(<<TVar("p1"), TVar("p2")>>), L)>>   \* unpack mismatch when len(l) # 2
+  <<SAssign(ATuple(<<TVar("x"), TVar("y")>>), ATuple(<<Call("len", <<L>>), VX>>)), SAssign(ATuple(<<TVar("p1"), TVar("p2")>>), L)>>,   \* unpack mismatch when len(l) # 2
+  \* --- layer 2
+  <<SAssign(TVar("s"), ABin("%", S(<<37, 115, 45, 37, 100>>), ATuple(<<Sv, VX>>))),                       \* "%s-%d" % (s, x)
+    SEmit(AMCall(S(<<123, 125, 58, 123, 33, 114, 125>>), "format", <<L, Sv>>))>>,                          \* "{}:{!r}".format(l, s)
+  <<SEmit(ABin("%", S(<<37, 100>>), Sv))>>,                                                               \* "%d" % s : fails
+  <<SAssign(TVar("qs"), Call("set", <<L>>)), SExpr(AMCall(AVar("qs"), "add", <<VX>>)),
+    SEmit(ABin("|", AVar("qs"), Call("set", <<AList(<<AInt(9)>>)>>))), SEmit(ABin("-", AVar("qs"), Call("set", <<AList(<<VX>>)>>)))>>,
+  <<SAssign(TVar("t"), ACallN(AVar("struct"), <<>>, <<ANamed("a", <<97>>, L), ANamed("b", <<98>>, VX)>>)),
+    SExpr(AMCall(L, "append", <<AInt(7)>>)), SEmit(AVar("t")),
+    SEmit(ABin("==", AVar("t"), ACallN(AVar("struct"), <<>>, <<ANamed("b", <<98>>, VX), ANamed("a", <<97>>, L)>>)))>>,
+  <<SAssign(TVar("x"), ABin("^", ABin("<<", VX, AInt(3)), AInt(5))), SEmit(ATuple(<<ABin("&", VX, AInt(6)), ABin(">>", Neg(VX), AInt(1)), ABin("|", VX, AInt(-8))>>))>>,
+  <<SEmit(ATuple(<<AMCall(Sv, "partition", <<S(B_)>>), AMCall(Sv, "rsplit", <<S(B_), AInt(1)>>), AMCall(Sv, "title", <<>>),
+                   AMCall(S(<<32, 32, 97, 98, 32>>), "split", <<>>), AMCall(Sv, "find", <<S(C_), AInt(-1)>>)>>))>>,
+  <<SEmit(Call("map", <<ALambda(<<P("q")>>, ABin("*", AVar("q"), VX)), L>>)), SEmit(Call("filter", <<ANone, ABin("+", L, AList(<<AInt(0)>>))>>))>>,
+  <<SExpr(Call("map", <<ALambda(<<P("q")>>, AMCall(L, "append", <<AVar("q")>>)), L>>))>>,                  \* mutation under the lock of map()
+  <<SExpr([k |-> "mcall", obj |-> D, name |-> "update", args |-> <<AList(<<ATuple(<<S(Z_), VX>>)>>)>>,
+           named |-> <<ANamed("a", <<97>>, AInt(5))>>, line |-> 0]), SEmit(ABin("|", D, ADict(<<S(<<113>>)>>, <<AInt(1)>>)))>>,
+  <<SEmit(AMCall(L, "index", <<AInt(2), AInt(1)>>)), SEmit(AMCall(L, "index", <<AInt(1), AInt(1)>>))>>,       \* second one: not in the window
+  <<SAssign(TVar("x"), Call("int", <<ABin("+", Call("str", <<VX>>), S(<<49>>))>>)), SEmit(Call("int", <<Sv>>))>>          \* int("abc") fails
 >>
 
 NT == Len(Templates)
